@@ -12,7 +12,7 @@ META = dict(
     assumptions=[
         'memWipe/memFree/memAlloc replaced by the ghost monitor harness/C15/wipe_model.c (pattern 0xA5, coverage table, arbitrary octet index at free)',
         'belt block cipher, bash-f, beltPolyMul uninterpreted (outputs arbitrary), beltPolyMul stub overwrites its whole stack area with arbitrary values',
-        'REL profile (NDEBUG), blob.c real with exact-size blobs (BEE2_VERIF_BLOB_EXACT), memIsDisjoint2 object-aware (harness/C09/mem_model.c is NOT used here; harness/C15/disjoint_model.c)',
+        'REL profile (NDEBUG), blob.c real with exact-size blobs (BEE2_VERIF_BLOB_EXACT), memIsDisjoint2 object-aware (harness/C15/disjoint_model.c)',
         'a counterexample of the monitor cannot be replayed natively (the monitor needs object sizes): it would be reported UNCONFIRMED and must be inspected by hand',
     ],
 )
@@ -25,12 +25,12 @@ MODES = [B + f for f in ('belt_ecb.c', 'belt_cbc.c', 'belt_cfb.c', 'belt_ctr.c',
                          'belt_bde.c', 'belt_sde.c', 'belt_krp.c', 'belt_hmac.c', 'belt_hash.c', 'belt_compr.c', 'belt_pbkdf.c', 'belt_fmt.c')]
 BELT = CORE + ['src/math/ww.c', 'src/math/zz/zz_add.c', 'src/math/zz/zz_mul.c', LCL, BLOCK] + MODES
 MON = ['harness/C15/wipe_model.c', 'harness/C15/disjoint_model.c', 'harness/C15/polymul_scribble.c']
-FS = ['--max-field-sensitivity-array-size', '512']
+FS = ['--max-field-sensitivity-array-size', '2048']   # botp/brng states are 700..1300 octets: below this bound CBMC loses the constants stored in the state (filled, digit)
 
 def wipe(name, which, tuples, srcs, stub_files, funcs, stubs, timeout=240, **kw):
     inst = [('w_%d_%d_%d' % t, '%s, %d, %d, %d' % ((which,) + t)) for t in tuples]
     d = dict(name='c15_wipe_' + name, harness='harness/C15/wipe.c', instances=inst, srcs=srcs, stub_files=stub_files + MON, blob_exact=True,
-             unwind=70, unwind_rules=[(r'^(belt|bash|brng|botp)\w+Step\w*\.\d+$', 8), (r'^memFree\.', 10)], timeout=timeout, mem_gb=6, cbmc_extra=FS,
+             unwind=70, unwind_rules=[(r'^(belt|bash|brng|botp)\w+Step\w*\.\d+$', 8), (r'^memFree\.', 10), (r'^brngBlockInc\.', 5)], timeout=timeout, mem_gb=6, cbmc_extra=FS,
              funcs=funcs, stubs=stubs + ['wipe_model (memWipe/memFree/memAlloc ghost monitor)'],
              bound='concrete (data length, second length, key length) tuples %s; key/password, data, iv, mac/header/otp symbolic' % (tuples,))
     d.update(kw)
@@ -53,11 +53,11 @@ def obligations(tier):
                        ('HMAC', 'beltHMAC', [(0, 0, 16), (33, 0, 32), (5, 0, 40)]), ('PBKDF2', 'beltPBKDF2', [(8, 1, 9), (0, 2, 33)])):
         obs.append(wipe(fn, nm, tu, BELT, UFE, [fn], ue))
     BR = BELT + ['src/crypto/brng.c']
-    obs.append(wipe('brngCTRRand', 'BRNG_CTR', [(0, 0, 32), (5, 0, 32), (32, 0, 32)], BR, UFE, ['brngCTRRand'], ue))
+    obs.append(wipe('brngCTRRand', 'BRNG_CTR', [(0, 0, 32), (5, 0, 32)], BR, UFE, ['brngCTRRand'], ue))
     obs.append(wipe('brngHMACRand', 'BRNG_HMAC', [(5, 16, 32), (32, 0, 16)], BR, UFE, ['brngHMACRand'], ue))
     BO = BELT + ['src/crypto/botp.c', 'src/core/dec.c', 'src/core/str.c', 'src/core/tm.c']
     for nm, fn in (('HOTP_R', 'botpHOTPRand'), ('HOTP_V', 'botpHOTPVerify'), ('TOTP_R', 'botpTOTPRand'), ('TOTP_V', 'botpTOTPVerify')):
-        obs.append(wipe(fn, nm, [(6, 0, 32), (8, 0, 16)], BO, UFE, [fn], ue))
+        obs.append(wipe(fn, nm, [(6, 0, 32), (8, 0, 16)] if nm.startswith('HOTP') else [(7, 0, 32)], BO, UFE, [fn], ue))
     obs.append(wipe('bashHash', 'BASH', [(0, 16, 0), (40, 32, 0)], CORE + ['src/crypto/bash/bash_hash.c'], ['stubs/bashf_uf.c'], ['bashHash'], ['bashf_uf'], unwind=200))
     # K-lemma on the REAL memWipe
     obs.append(Ob(name='c15_memWipe_real', harness='harness/C15/memwipe.c', entry='h_memwipe', srcs=['src/core/mem.c', 'src/core/util.c'], unwind=60, timeout=300, replay='asan',
